@@ -4,6 +4,7 @@ violations natively -> verdict + evidence.  Invoked through /verif/check."""
 import sys, os, time, json, subprocess, tempfile, shutil, hashlib, re, collections
 HERE = os.path.dirname(os.path.abspath(__file__))
 VERIF = os.path.dirname(HERE)
+OUT = os.environ.get('VERIF_OUT', VERIF)      # evidence/ and replay/ go here (seed regression and background runs redirect it)
 sys.path.insert(0, HERE)
 import irparse, symx
 import props
@@ -295,7 +296,7 @@ def explore_run(pid, run, tier, work, nproc, log):
 
 
 def save_replay(pid, rec):
-    d = os.path.join(VERIF, 'replay', pid); os.makedirs(d, exist_ok=True)
+    d = os.path.join(OUT, 'replay', pid); os.makedirs(d, exist_ok=True)
     h = hashlib.sha1(json.dumps(rec['replay']['choices'], sort_keys=True).encode() + rec['run'].encode()).hexdigest()[:12]
     p = os.path.join(d, h + '.json')
     json.dump(rec, open(p, 'w'), indent=1, default=str)
@@ -409,8 +410,8 @@ def write_evidence(pid, tier, seed, spec, runs, results, problems, nviol, wall):
     }
     ev = {'property_id': pid, 'tier': tier, 'seed': seed, 'level': 'model_checking', 'coverage': cov,
           'assumptions': spec.assumptions + props.COMMON_ASSUMPTIONS, 'wall_s': round(wall, 2), 'violations': nviol}
-    os.makedirs(os.path.join(VERIF, 'evidence'), exist_ok=True)
-    json.dump(ev, open(os.path.join(VERIF, 'evidence', pid + '.json'), 'w'), indent=1, default=str)
+    os.makedirs(os.path.join(OUT, 'evidence'), exist_ok=True)
+    json.dump(ev, open(os.path.join(OUT, 'evidence', pid + '.json'), 'w'), indent=1, default=str)
 
 
 if __name__ == '__main__':
